@@ -232,6 +232,12 @@ func runC14(c *an.Ctx) {
 	r145(c, "R14.5")
 	r147(c)
 	r148(c)
+	// what the trait servers rely on from the layers below: a subscriber that is registered keeps receiving (the bus
+	// never drops a live listener), and every write that is stored is published - and what is returned is what was stored
+	registryRebuild(c, "R14.9")
+	r041as(c, "R14.10")
+	c.Min("R14.9", 1)
+	c.Min("R14.10", 6)
 	c.Min("R14.1", 30)
 	c.Min("R14.2", 20)
 	c.Min("R14.3", 20)
